@@ -231,6 +231,9 @@ func (rn *runner) judge(cfg string, a Act, cr Concrete, resp Resp, seen []Seen, 
 		if cfg != "" {
 			cfgNote = fmt.Sprintf(" (server constructed with ResponseHeaders %s)", canon(cfgHeaders(cfg)))
 		}
+		if len(prev) == 0 && !rn.conc {
+			cfgNote += " - the FIRST request to a newly constructed server, in a process that has constructed and used other servers before: what it remembers is process-global"
+		}
 		rn.report(key,
 			fmt.Sprintf("request %s after %v%s is answered\n  %s\na fresh server answers (%s)\n  %s", r.label(), labels(prev), cfgNote, resp.key(), strings.Join(names, " | "), allowed[0].key()), scen)
 	}
